@@ -6,9 +6,9 @@ import os
 HERE = os.path.dirname(os.path.dirname(os.path.abspath(__file__)))
 CHECKS = {
  "C02": ("other", "HIR decision tables + sibling agreement", "§4 C02", "Agreement of the three evaluators (run/paths/update) on which terms are paths, branch mapping and native twins, as tables over the 28 term kinds; positions computed by each arm are value-level and not decided."),
- "C03": ("other", "forcing-site discipline over the mono call graph + CFG guards", "§4 C03", "Construction-time code forces a stream only at reviewed sites; single-output fast paths guarded by size_hint; later operands built lazily; writer flushes per output. Over-forcing inside next() is not decided."),
+ "C03": ("other", "forcing-site discipline over the mono call graph + HIR operand-laziness tables + CFG guards", "§4 C03", "Construction-time code forces a stream only at reviewed sites; single-output fast paths guarded by size_hint; later operands built lazily; writer flushes per output. Over-forcing inside next() is not decided."),
  "C04": ("other", "HIR decision tables (tail positions, call classification, trampoline) + CFG growth guards", "§4 C04", "The four decision tables that implement tail-call optimisation and the two do-not-regrow guards; constant space itself is a run-time quantity."),
- "C05": ("other", "taint dataflow on MIR + reviewed panic-site inventory + CFG pairing", "§4 C05", "Numeric discipline on user numbers (decided), every panic site reviewed (new sites reported), scope push/pop pairing. Index safety arguments are reviewed, not computed."),
+ "C05": ("other", "taint dataflow on MIR + interval analysis on MIR + reviewed panic-site inventory + CFG pairing", "§4 C05", "Numeric discipline on user numbers (decided), every panic site reviewed (new sites reported), scope push/pop pairing. Index safety arguments are reviewed, not computed."),
  "C06": ("proof", "whole-program monomorphic call-graph reachability (sound over-approximation)", "§4 C06", "No file/network/process API reachable from any native filter, the interpreter or a codec in the shipped binary incl. all dependencies; time-zone database reads excepted exactly as stated."),
  "C07": ("other", "HIR constant tables of the JSON writer/reader", "§4 C07", "Mandatory RFC 8259 escapes, kind-specific escapes, decimals kept as text, insertion-ordered map type. Round-trip equality itself is value-level."),
  "C08": ("other", "HIR variant-pair tables + contradiction rule + mono who-may-call", "§4 C08", "Ord/PartialEq/Hash of Val and Num are mutually consistent tables; float hash normalises what float compare merges; sorting of values is stable."),
@@ -59,6 +59,7 @@ def main():
             {"name": "TAINT", "path": "rules/taint.py", "serves_properties": ["C05", "C09", "C20"], "kind_free_text": "forward taint dataflow on MIR with structural guard recognition"},
             {"name": "CFG", "path": "rules/mirutil.py", "serves_properties": ["C03", "C04", "C05", "C10", "C14", "C16", "C17", "C18"], "kind_free_text": "dominance, must-follow, control dependence and value flow on MIR"},
             {"name": "TABLES", "path": "rules/hirtab.py", "serves_properties": ["C02", "C04", "C07", "C08", "C09", "C10", "C13", "C14", "C15", "C17"], "kind_free_text": "finite decision tables from match expressions of the typed HIR (pattern semantics, constant folding)"},
+            {"name": "RANGE", "path": "rules/ranges.py", "serves_properties": ["C05"], "kind_free_text": "interval analysis (non-relational abstract interpretation with dominating-guard refinement) on MIR: discharges overflow/division/bounds assertion sites that cannot fail"},
             {"name": "WITNESS", "path": "witness/", "serves_properties": ["C19"], "kind_free_text": "compile-pass and compile_fail doc-tests decided by the type checker"},
         ],
         "checks": checks,
